@@ -199,9 +199,11 @@ func (sp SinePacer) Pace(elapsedTime time.Duration, elapsedHits uint64) (time.Du
 	}
 	// Re-arranging our hits equation to provide a duration given the number of
 	// requests sent is non-trivial, so we must solve for the duration numerically.
-	// Because Amp < Mean the rate is always positive and hits() grows
+	// With |Amp| < Mean the rate is always positive and hits() grows
 	// monotonically, so the instant at which it reaches elapsedHits+1 lies
-	// within hitsToWait / (Mean - Amp) and can be bisected to the nanosecond.
+	// within hitsToWait / (Mean - |Amp|) and can be bisected to the nanosecond
+	// (an amplitude of -Mean or below lets the rate reach zero: there is no
+	// such bound, and the attack stops).
 	// (A fixed number of proportional corrections of a first guess, as used
 	// before, over- and undershoots when the rate changes within one hit
 	// interval, e.g. with Amp close to Mean.)
